@@ -541,6 +541,9 @@ func (i *IPv6HopByHop) DecodeFromBytes(data []byte, df gopacket.DecodeFeedback) 
 		if err != nil {
 			return err
 		}
+		if offset+opt.ActualLength > i.ActualLength {
+			return errors.New("IPv6 header TLV option exceeds the hop-by-hop header")
+		}
 		i.Options = append(i.Options, (*IPv6HopByHopOption)(opt))
 		offset += opt.ActualLength
 	}
@@ -710,6 +713,9 @@ func (i *IPv6Destination) DecodeFromBytes(data []byte, df gopacket.DecodeFeedbac
 		opt, err := decodeIPv6HeaderTLVOption(data[offset:], df)
 		if err != nil {
 			return err
+		}
+		if offset+opt.ActualLength > i.ActualLength {
+			return errors.New("IPv6 header TLV option exceeds the destination options header")
 		}
 		i.Options = append(i.Options, (*IPv6DestinationOption)(opt))
 		offset += opt.ActualLength
